@@ -137,7 +137,7 @@ fn run(prop: &str, tier: &str) -> i32 {
         "cursors are keys of the store (what a previous page can return); arbitrary strings as cursors are not explored".into(),
         "cw3-flex ListVoters / Voter are answered by a real cw4-group through the kernel's smart and raw queries".into(),
         "cw20-base AllAccounts over emptied accounts (balance transferred away, entry of 0 remains): the property does not say whether such an account is still an item; the unchanged code lists them, and the check accepts either reading (all stored accounts, or funded accounts only) provided the listing follows it completely for every limit and cursor".into(),
-        "cw20 allowance listings after revocations: a fully decreased allowance is not an item (the unchanged code removes it from both maps and the point query reads 0); it must not be listed, and every pair whose point query is non-zero must be listed once with that amount. The migrated stores are produced by wiping the `allowance_spender` namespace, setting cw2 version 0.13.4 and running the real migrate".into(),
+        "cw20 allowance listings after revocations: the property does not fix whether a fully decreased allowance (point query reads 0) is still an item. Two readings are accepted - it is not listed (the unchanged code), or it is listed with amount exactly 0 (any expiry) - provided all pages and both the owner and the spender listing of the store follow the same reading; a revoked pair listed with a non-zero amount is a violation, and every pair whose point query is non-zero must be listed once with that amount. The migrated stores are produced by wiping the `allowance_spender` namespace, setting cw2 version 0.13.4 and running the real migrate".into(),
         "cw3-fixed ListVoters with 0 voters is not constructible (instantiate refuses); cw20-ics20 ListChannels has no paging and is not covered".into(),
     ];
     rep.runs = runs;
@@ -176,9 +176,23 @@ fn replay_once(case: &Value) -> Result<(Vec<String>, Vec<(String, String)>), Str
     if case["alt_reading"] == json!(true) {
         let alt = b.alternative().ok_or("case refers to an alternative reading the store does not have")?;
         // judged under the reading the listing follows now (as the sweep does)
-        if !pager::follows_first_reading(&l, &b, &alt) {
+        if pager::follows_alt_reading(&l, &b, &alt) {
             b = alt;
         }
+    }
+    if mode == "readings" {
+        let lines = vec![format!(
+            "store: {} n={}: the other listing over the same store {} fully revoked pairs",
+            l.name,
+            n,
+            match b.sibling_follows_alt {
+                Some(true) => "lists",
+                Some(false) => "does not list",
+                None => "has no",
+            }
+        )];
+        let viols = pager::check_sibling(&l, n, &b).map(|v| (v.clause, v.detail)).into_iter().collect();
+        return Ok((lines, viols));
     }
     let mut lines = vec![format!(
         "store: {} with {} stored entries, {} current items (built with {} entry-point calls, {} point queries)",
